@@ -47,11 +47,21 @@ def sub_env(extra=None, write_bytecode=False, pycache_prefix=None):
         env["PYTHONPYCACHEPREFIX"] = pycache_prefix
     if not write_bytecode:
         env["PYTHONDONTWRITEBYTECODE"] = "1"
-        # hy's own modules still load from the shared cache
-        env.setdefault("PYTHONPYCACHEPREFIX", os.path.join(vlib.VERIF, ".pycache"))
     if extra:
         env.update(extra)
     return env
+
+
+def warm_cache(root):
+    """compile hy's own modules once into a private pycache prefix under `root`
+    (the ambient environment forbids writing bytecode, so without this every
+    subprocess would recompile hy's core); returns the prefix"""
+    prefix = os.path.join(root, "pyc")
+    os.makedirs(prefix, exist_ok=True)
+    env = sub_env(write_bytecode=True, pycache_prefix=prefix)
+    subprocess.run([vlib.PY, "-c", "import hy, hy.cmdline, hy.repl, hy.core.result_macros, hy.pyops, hy.core.hy_repr"],
+                   env=env, cwd=root, capture_output=True, timeout=300)
+    return prefix
 
 
 def run_cmd(argv, cwd, stdin="", env=None, timeout=120):
